@@ -572,6 +572,9 @@ func isNilIdent(ex ast.Expr) bool {
 }
 
 func (e *Exec) nilTest(v Val) Term {
+	if v.Addr != nil && v.Addr.Null != "" {
+		return v.Addr.Null
+	}
 	if v.Addr != nil {
 		return Eq(v.Addr.Ref, "0") // an interior pointer is nil only if its base is
 	}
